@@ -10,6 +10,39 @@ from pamqp import decode, encode, exceptions, frame  # noqa: E402
 UE = exceptions.UnmarshalingException
 
 
+def trash(obj, depth=0):
+    """The caller owns what a decode returned: overwrite every attribute and container of it.  If anything of it is
+    shared with a later result (a cached object, a shared default, a module-level template) that later result is wrong."""
+    try:
+        from pamqp import base, body, header
+        if isinstance(obj, header.ProtocolHeader):
+            obj.major_version, obj.minor_version, obj.revision = 201, 202, 203
+        elif isinstance(obj, body.ContentBody):
+            obj.value = b'\x00trashed'
+        elif isinstance(obj, header.ContentHeader):
+            obj.body_size, obj.weight = 987654321, 77
+            trash(obj.properties, depth + 1)
+        elif isinstance(obj, (base.Frame, base.BasicProperties)) and depth < 3:
+            for a in type(obj).__slots__:
+                x = getattr(obj, a, None)
+                if isinstance(x, dict):
+                    for y in list(x.values()):
+                        if isinstance(y, dict):
+                            y['x-trashed'] = 1
+                        elif isinstance(y, list):
+                            y.append('x-trashed')
+                    x['x-trashed'] = 1
+                elif isinstance(x, list):
+                    x.append('x-trashed')
+                else:
+                    try:
+                        setattr(obj, a, 'trashed' if isinstance(x, str) or x is None else (not x if isinstance(x, bool) else 41))
+                    except Exception:  # noqa
+                        pass
+    except Exception:  # noqa
+        pass
+
+
 def do_unmarshal(data):
     """frame.unmarshal under the decoder-step budget: a decoder that does not terminate is recorded
     as {'r': 'budget'} instead of hanging the driver"""
@@ -69,6 +102,7 @@ def roundtrip(f, ch):
             re_ = {'r': 'ok', 'b': list(frame.marshal(g, ch))}
         except Exception as e:  # noqa
             re_ = a_exc(e)
+    trash(g)
     return {'in': fin, 'ch': int(ch), 'out': out, 'un': un, 're': re_, 'out2': out2, 'post': post}
 
 
@@ -138,6 +172,7 @@ def unmarshal(data, budget=True, memory=False, extra=None):
         else:
             if isinstance(res, tuple) and len(res) == 3:
                 ev['out'] = {'r': 'ok', 'n': as_int(res[0]), 'ch': as_int(res[1]), 'f': a_frame(res[2])}
+                trash(res[2])
             else:
                 ev['out'] = {'r': 'exc', 'type': 'BadResult:' + type(res).__name__, 'lib': False, 'site': 'frame.unmarshal'}
     else:
@@ -147,16 +182,37 @@ def unmarshal(data, budget=True, memory=False, extra=None):
     return ev
 
 
-def cutset(data, cuts=None):
-    """every strict prefix (or the given cut points) of a complete frame"""
+_RXBUF = bytearray()
+
+
+def cutset(data, cuts=None, reuse=False):
+    """every strict prefix (or the given cut points) of a complete frame; with reuse: the prefixes are presented in ONE
+    mutable receive buffer that is refilled in place (what a client with a preallocated bytearray does)"""
     data = bytes(data)
-    full, _ = do_unmarshal(data)
+    full = None if reuse else do_unmarshal(data)[0]     # (with reuse NOTHING but the one buffer object is ever decoded)
     res = []
     for k in (range(len(data)) if cuts is None else cuts):
-        o, _ = do_unmarshal(data[:k])
+        if reuse:
+            _RXBUF[:] = data[:k]
+            try:
+                r3 = frame.unmarshal(_RXBUF)
+                o = {'r': 'ok', 'n': as_int(r3[0]), 'ch': as_int(r3[1])}
+            except Exception as e:  # noqa
+                o = a_exc(e, UE)
+        else:
+            o, _ = do_unmarshal(data[:k])
         r = {'k': k, 'r': o['r'], 'type': o.get('type', ''), 'lib': bool(o.get('lib', False)), 'n': o.get('n', -1)}
         res.append(r)
-    return {'b': list(data), 'full': {'r': full['r'], 'n': full.get('n', -1)}, 'cuts': res}
+    if reuse:
+        # (the library decodes field tables from bytes only -- a bytearray slice is not hashable as a type tag -- so the
+        # complete frame is judged from bytes; what matters here is what the mutable buffer leaves behind)
+        full = do_unmarshal(data)[0]
+        _RXBUF[:] = data        # the complete frame last: it is what the next cut set finds in the buffer
+        try:
+            frame.unmarshal(_RXBUF)
+        except Exception:  # noqa
+            pass
+    return {'b': list(data), 'full': {'r': full['r'], 'n': full.get('n', -1)}, 'cuts': res, 'via': 'bytearray' if reuse else 'bytes'}
 
 
 def frame_parts(data):
